@@ -506,7 +506,7 @@ def run(ck):
         ck.case(key=("dynamic-modes", nm), nontrivial=True, kind="shares_memory")
     ck.extra["dynamic_modes"] = dyn
     ck.extra["dynamic_store_shares_buffer"] = dyn_sm
-        if static is not None:
+    if static is not None:
         ok = (dyn == static and dyn_sm == static_sm)
         ck.obligations.append(("modes-derived-from-source", ok, [] if ok else ["static %s %s vs run-time %s %s" % (static, static_sm, dyn, dyn_sm)]))
         if not ok:
